@@ -1,6 +1,8 @@
 package c14
 
 import (
+	"bufio"
+	"bytes"
 	"fmt"
 
 	"github.com/tuneinsight/lattigo/v6/core/rlwe"
@@ -122,6 +124,11 @@ func runCPK(c *eng.Ctx, cf cfg) {
 	if !c.Try("C14|"+P+".GenShare", func() {
 		for i := range protos {
 			shares[i] = protos[i].AllocateShare()
+			if cf.Ext && i%2 == 1 {
+				// a receiver that held something else before: GenShare must overwrite it
+				e.junkRows(qpRows(shares[i].Value), mods)
+				c.Count("share_buffers_dirty", 1)
+			}
 			protos[i].GenShare(e.sks[i], crps[i], &shares[i])
 		}
 	}) {
@@ -148,12 +155,45 @@ func runCPK(c *eng.Ctx, cf cfg) {
 			return
 		}
 	}
+	var stream []byte
+	var off []int
+	if cf.Ext {
+		var wok bool
+		stream, off, wok = wireTrip[multiparty.PublicKeyGenShare](c, "PublicKeyGenShare", shares, blobs, func(a, b multiparty.PublicKeyGenShare) bool {
+			return eqRows(qpRows(a.Value), qpRows(b.Value), nil)
+		})
+		if !wok {
+			return
+		}
+		// a party that rewinds its CRS (KeyedPRNG.Reset) and replays the call sequence obtains the same polynomials
+		c.Try("C14|"+P+".SampleCRP", func() {
+			crs := e.newCRS()
+			var rd [2]crpRead
+			for k := range rd {
+				e.warmUp(crs, script, &rd[k])
+				rd[k].addQP(params, protos[0].SampleCRP(crs).Value)
+				crs.Reset()
+			}
+			c.Count("crs_rewinds", 1)
+			c.Check(eqRows(rd[0].rows, rd[1].rows, nil) && eqRows(rd[0].rows, reads[0].rows, nil), "C14|"+P+".SampleCRP|crs-rewind-does-not-replay", nil)
+		})
+	}
 	o := &ops[multiparty.PublicKeyGenShare]{proto: P, key: fmt.Sprintf("%s/%d", e.chain, e.np), n: e.np, mods: mods,
 		leaf: func(i int, ser bool) multiparty.PublicKeyGenShare {
 			if ser {
 				var s multiparty.PublicKeyGenShare
 				if rnd.Bool() {
 					s = protos[0].AllocateShare()
+					if cf.Ext {
+						e.junkRows(qpRows(s.Value), mods)
+					}
+				}
+				if cf.Ext && rnd.Bool() {
+					c.Count("leaves_from_common_stream", 1)
+					if _, err := s.ReadFrom(bufio.NewReader(bytes.NewReader(stream[off[i]:]))); err != nil {
+						panic(err)
+					}
+					return s
 				}
 				if err := s.UnmarshalBinary(blobs[i]); err != nil {
 					panic(err)
@@ -180,6 +220,18 @@ func runCPK(c *eng.Ctx, cf cfg) {
 		return
 	}
 	c.Check(eqRows(qpRows(pk.Value[0]), qpRows(agg.Value), mods) && eqRows(qpRows(pk.Value[1]), qpRows(crps[0].Value), nil), "C14|"+P+".GenPublicKey|key-differs-from-aggregate-and-crp", nil)
+	if cf.Ext {
+		// a key object that held another key before must end up identical to the fresh one
+		c.Try("C14|"+P+".GenPublicKey", func() {
+			pk2 := rlwe.NewPublicKey(params)
+			e.junkRows(qpRows(pk2.Value[0]), mods)
+			e.junkRows(qpRows(pk2.Value[1]), mods)
+			protos[rnd.N(e.np)].GenPublicKey(agg, crps[rnd.N(e.np)], pk2)
+			c.Count("finalisations_into_used_key", 1)
+			c.Check(eqRows(qpRows(pk2.Value[0]), qpRows(pk.Value[0]), nil) && eqRows(qpRows(pk2.Value[1]), qpRows(pk.Value[1]), nil),
+				"C14|"+P+".GenPublicKey|result-depends-on-receiver-history", nil)
+		})
+	}
 
 	// ---- the key is a public key of the ideal secret: b + a*s = e over QP, |e| <= N*B
 	rqp := params.RingQP()
